@@ -273,4 +273,57 @@ Proof.
   rewrite IH. f_equal. symmetry. apply nth_abs. lia.
 Qed.
 
+(* ------------------------------------------------------------------ AdoptRawDataArray / ReleaseRawDataArray *)
+
+Lemma adopt_spec ow q xs spare : inv ow sq q ->
+  inv ow sq (adopt ow q xs spare) /\ abs (adopt ow q xs spare) = xs.
+Proof.
+  intros I. unfold adopt. cbv zeta.
+  destruct (clear_shape sq ow q true I) as (J1 & J2 & J3 & _).
+  set (q0 := clear ow q true) in *.
+  set (a := xs ++ (if ow then repeat dflt (length spare) else spare)).
+  assert (La : length xs <= length a) by (subst a; rewrite app_length; lia).
+  assert (G : forall i, i < length a ->
+            getu (mkQ SHeap a (length xs) 0 (length xs - 1) (match st q0 with SSmall => arr q0 | _ => inl q0 end)) i = nth i a dflt).
+  { intros i Hi. apply getu_head0; [reflexivity|exact Hi]. }
+  split.
+  - constructor; unfold store_ok, clean, inl_ok, qsize; cbn [st arr cnt head tail inl].
+    + exact (inv_sq _ _ q I).
+    + exact La.
+    + lia.
+    + intros Hx. rewrite intern_head0; [reflexivity|reflexivity|unfold qsize; cbn [arr]; lia].
+    + exact Logic.I.
+    + intros Ho i Hi. rewrite G by lia. subst a. rewrite Ho. rewrite nth_app', nth_repeat'. dif; fin.
+    + intros _. destruct (st q0) eqn:E0.
+      * apply (inv_inl _ _ q0 J1). congruence.
+      * pose proof (inv_store _ _ q0 J1) as S0. unfold store_ok in S0. rewrite E0 in S0.
+        split; [exact S0|]. intros Ho i Hi. apply (all_dflt _ _ q0 J1 J2 Ho). lia.
+      * apply (inv_inl _ _ q0 J1). congruence.
+  - apply abs_ext; cbn [cnt]; [reflexivity|]. intros i Hi. rewrite G by lia. subst a. rewrite nth_app'. dif; fin.
+Qed.
+
+Lemma release_spec ow q : inv ow sq q ->
+  inv ow sq (fst (release ow jk q)) /\ abs (fst (release ow jk q)) = [].
+Proof.
+  intros I. unfold release.
+  assert (G : st q <> SSmall ->
+              inv ow sq (mkQ SNull [] 0 (head q) (tail q) (inl q)) /\ abs (mkQ SNull [] 0 (head q) (tail q) (inl q)) = []).
+  { intros Hs. split; [|reflexivity].
+    constructor; unfold store_ok, clean, inl_ok, qsize; cbn [st arr cnt head tail inl length]; try lia.
+    - exact (inv_sq _ _ q I).
+    - intros _. exact (inv_inl _ _ q I Hs). }
+  destruct (st q) eqn:Es; cbn [fst].
+  - apply G. congruence.
+  - destruct (clear_shape sq ow q false I) as (J1 & J2 & _). split; [exact J1|]. apply abs_cnt0. exact J2.
+  - apply G. congruence.
+Qed.
+
+(* what ReleaseRawDataArray hands out holds the items: in user order for a copied in-object array, in ring order else *)
+Lemma release_array_items ow q i : inv ow sq q -> i < cnt q ->
+  nth (match st q with SSmall => i | _ => intern q i end) (snd (release ow jk q)) 0%Z = getu q i.
+Proof.
+  intros I Hi. unfold release. destruct (st q); cbn [snd]; try reflexivity.
+  rewrite nth_app', abs_length. replace (i <? cnt q) with true by lia. apply nth_abs. exact Hi.
+Qed.
+
 End SortOps.
